@@ -30,10 +30,11 @@ Obj(k, cls, keys, e, ast, env) == [k |-> k, cls |-> cls, keys |-> keys, e |-> e,
 NoAst == [k |-> "none"]
 
 M0 == [cells |-> <<>>, objs |-> <<>>, frames |-> << << <<>> >> >>, globals |-> <<>>, funs |-> <<>>, classes |-> <<>>,
-       out |-> <<>>, err |-> "", fuel |-> 400, ast |-> <<>>, stack |-> <<>>]
+       out |-> <<>>, err |-> "", fuel |-> 400, ast |-> <<>>, stack |-> <<>>, thrown |-> 0]
 R(M, ctl, d) == [M |-> M, ctl |-> ctl, d |-> d]
 Err(M, cls) == R([M EXCEPT !.err = cls], "err", 0)
 Norm(M, d) == R(M, "norm", d)
+Thr(M, d) == R([M EXCEPT !.thrown = d], "thr", 0)          \* a value thrown by script: travels like an error, carries the thrown cell
 
 \* a cell: value, const flag, and the "return value" flag a value returned BY VALUE from a C++ function carries until it is bound to a name
 \* (Boxed_Value::is_return_value): such a temporary cannot be the target of an assignment ("cannot assign to temporary value")
@@ -132,7 +133,7 @@ BinOp(M, op, x, y) ==      \* result value or "bad"
 TypeName(v) == CASE v.t = "int" -> "int" [] v.t = "bool" -> "bool" [] v.t = "str" -> "string" [] OTHER -> v.t
 
 \* ---------------------------------------------------------------- the evaluator
-RECURSIVE Ev(_, _), EvNode(_, _), EvSeq(_, _, _), EvArgs(_, _, _, _), Call(_, _, _), CallFn(_, _, _, _), TryFuns(_, _, _, _), While(_, _), ForLoop(_, _),
+RECURSIVE Ev(_, _), EvNode(_, _), TryClauses(_, _, _, _), EvSeq(_, _, _), EvArgs(_, _, _, _), Call(_, _, _), CallFn(_, _, _, _), TryFuns(_, _, _, _), While(_, _), ForLoop(_, _),
           RFor(_, _, _, _), Cases(_, _, _, _, _), ElseIfs(_, _, _), VecLit(_, _, _, _), MapLit(_, _, _, _, _), Assign(_, _, _)
 
 \* evaluates a sequence of statements; the value of the last one is the value of the block
@@ -273,6 +274,18 @@ Apply2(M, op, da, db) ==
   ELSE IF v.t = "bad" /\ v.s = "ee" /\ fs # <<>> THEN TryFuns(M, Ordered(M, fs, <<da, db>>), 1, <<da, db>>)
   ELSE IF v.t = "bad" THEN Err(M, IF v.s = "arith" THEN "ex" ELSE "ee") ELSE IF v.t = "str" THEN Temp(M, v) ELSE CTemp(M, v)
 
+\* the clauses in order: an untyped clause takes anything (a thrown value or an engine error); a typed one takes a thrown value of that type
+TryClauses(cl, i, b, M) ==
+  IF i > Len(cl) THEN b                                                       \* no clause accepted it: it keeps travelling, unchanged
+  ELSE LET c == cl[i]
+           isval == b.ctl = "thr"
+           takes == c.ty = "" \/ (isval /\ c.ty = TypeName(Val(M, M.thrown)))
+       IN IF ~takes THEN TryClauses(cl, i + 1, b, M)
+          ELSE LET M1 == PushScope([M EXCEPT !.err = "", !.stack = <<>>])
+                   M2 == IF isval THEN Bind(M1, c.n, M.thrown) ELSE LET k == NewCell(M1, VUndef, FALSE) IN Bind(k, c.n, LastCell(k))
+                   r == Block(c.h, M2)
+               IN R(PopScope(r.M), r.ctl, r.d)
+
 \* C20: while an error unwinds, every node it passes appends itself to the error's call stack (AST_Node_Impl::eval does this for
 \* every node; the reference records the nodes that carry a label "lab": the failing identifier / call and every enclosing call)
 Ev(e, M) == LET r == EvNode(e, M) IN
@@ -394,6 +407,16 @@ EvNode(e, M) ==
                         IF Val(c.M, c.d).t # "vec" THEN Err(c.M, "ee") ELSE RFor(e, c.M.objs[Val(c.M, c.d).r].e, 1, c.M))
     [] e.k = "switch" -> (LET s == Ev(e.e, M) IN IF s.ctl # "norm" THEN s ELSE
                           LET r == Cases(e.cases, 1, PushScope(s.M), Val(s.M, s.d), FALSE) IN R(PopScope(r.M), r.ctl, IF r.ctl = "ret" THEN r.d ELSE 0))
+    [] e.k = "throw" -> (LET a == Ev(e.e, M) IN IF a.ctl # "norm" THEN a ELSE IF a.d = 0 THEN Err(a.M, "ee") ELSE Thr(a.M, a.d))
+    [] e.k = "try" ->             \* try { b } catch(ty n) { h } ... finally { f }   (C10's reference semantics inside the language model)
+        (LET b == Block(e.b, PushScope(M))                      \* the Try node's own scope around the body block
+             c == IF b.ctl \in {"thr", "err"} THEN TryClauses(e.cl, 1, b, b.M) ELSE b
+             Mc == PopScope(c.M)
+         IN IF ~e.hasfin THEN R(Mc, c.ctl, c.d)
+            ELSE LET f == Block(e.fin, Mc) IN
+                 IF f.ctl # "norm" THEN f                         \* the finally block's own abrupt end replaces what was pending
+                 ELSE IF c.ctl # "norm" THEN R(f.M, c.ctl, c.d)   \* pending exception / return / break continues after finally ran once
+                 ELSE f)                                          \* the value of the statement is the finally block's
     [] e.k = "break" -> R(M, "brk", 0)
     [] e.k = "continue" -> R(M, "cont", 0)
     [] e.k = "ret" -> (LET a == Ev(e.e, M) IN IF a.ctl # "norm" THEN a ELSE R(a.M, "ret", a.d))
@@ -408,8 +431,9 @@ EvNode(e, M) ==
 \* a whole program: top-level statements in the base scope; return at top level ends eval with that value
 Run(prog) == LET r == EvSeq(prog, 1, M0) IN
              [out |-> r.M.out,
-              oc |-> IF r.ctl = "err" THEN r.M.err ELSE IF r.ctl = "fuel" THEN "fuel" ELSE IF r.ctl \in {"brk", "cont"} THEN "ee" ELSE "val",
-              v |-> IF r.ctl \in {"norm", "ret"} /\ r.d # 0 /\ Printable(r.M, Val(r.M, r.d)) THEN TypeName(Val(r.M, r.d)) \o ":" \o ToStr(r.M, Val(r.M, r.d)) ELSE "",
+              oc |-> IF r.ctl = "err" THEN r.M.err ELSE IF r.ctl = "fuel" THEN "fuel" ELSE IF r.ctl \in {"brk", "cont"} THEN "ee" ELSE IF r.ctl = "thr" THEN "bv" ELSE "val",
+              v |-> IF r.ctl \in {"norm", "ret"} /\ r.d # 0 /\ Printable(r.M, Val(r.M, r.d)) THEN TypeName(Val(r.M, r.d)) \o ":" \o ToStr(r.M, Val(r.M, r.d))
+                    ELSE IF r.ctl = "thr" /\ Printable(r.M, Val(r.M, r.M.thrown)) THEN TypeName(Val(r.M, r.M.thrown)) \o ":" \o ToStr(r.M, Val(r.M, r.M.thrown)) ELSE "",
               balanced |-> Len(r.M.frames) = 1 /\ Len(r.M.frames[1]) = 1]
 
 \* C08: a program given as SEGMENTS evaluated one after the other in the same engine (an error ends its segment only: the
@@ -419,17 +443,14 @@ RunSegs(segs, i, M, acc) ==
   IF i > Len(segs) THEN acc
   ELSE LET r == EvSeq(segs[i].b, 1, [M EXCEPT !.out = <<>>, !.err = "", !.stack = <<>>])
            res == [out |-> r.M.out,
-                   oc |-> IF r.ctl = "err" THEN r.M.err ELSE IF r.ctl = "fuel" THEN "fuel" ELSE IF r.ctl \in {"brk", "cont"} THEN "ee" ELSE "val",
+                   oc |-> IF r.ctl = "err" THEN r.M.err ELSE IF r.ctl = "fuel" THEN "fuel" ELSE IF r.ctl \in {"brk", "cont"} THEN "ee" ELSE IF r.ctl = "thr" THEN "bv" ELSE "val",
                    v |-> IF r.ctl \in {"norm", "ret"} /\ r.d # 0 /\ Printable(r.M, Val(r.M, r.d)) THEN TypeName(Val(r.M, r.d)) \o ":" \o ToStr(r.M, Val(r.M, r.d)) ELSE "",
                    astok |-> AstUnchanged(r.M), stack |-> IF r.ctl = "err" THEN r.M.stack ELSE <<>>]
            Mn == [r.M EXCEPT !.frames = << << r.M.frames[1][1] >> >>]
        IN RunSegs(segs, i + 1, Mn, Append(acc, res))
 
-Progs == ndJsonDeserialize(IOEnv.IN)
-Export == ndJsonSerialize(IOEnv.OUT, [i \in 1..Len(Progs) |-> [id |-> Progs[i].id, expect |-> Run(Progs[i].prog)]])
-\* the reference itself keeps its scope discipline on every program (C09 evaluated on the reference)
-Balanced == \A i \in 1..Len(Progs) : Run(Progs[i].prog).balanced
-
+\* (the operators that read IOEnv.IN / write IOEnv.OUT live in the *Export modules and take an argument: TLC evaluates every
+\*  zero-arity constant definition of all extended modules eagerly, so two such definitions writing the same file would race)
 VARIABLE dummy
 Init == dummy = 0
 Next == UNCHANGED dummy
